@@ -76,7 +76,7 @@ m("C05", "D1 reverted: removed entries reported via call_soon", "sd.py", "      
 m("C05", "discovery ignores detected reboots", "sd.py", "        self.found_services.stop_all_for_address(addr)", "        pass")
 m("C05", "D8 reverted: watch replay deferred", "sd.py", "                if service.matches_service(s):\n                    listener.service_offered(s, addr)", "                if service.matches_service(s):\n                    asyncio.get_event_loop().call_soon(listener.service_offered, s, addr)")
 m("C05", "D9 reverted: updates ignored while unwatched", "sd.py", "            self.service_offer_stopped(addr, entry)\n            return\n        if entry.ttl == 0:", "            return\n        if entry.ttl == 0:")
-m("C05", "unwatch does not notify (not demanded by the property)", "sd.py", "                if service.matches_service(s):\n                    listener.service_stopped(s, addr)", "                if service.matches_service(s):\n                    pass", "HELD")
+m("C05", "unwatch does not notify (demanded only for a listener that stays registered under another filter)", "sd.py", "                if service.matches_service(s):\n                    listener.service_stopped(s, addr)", "                if service.matches_service(s):\n                    pass")
 # ---- C06
 m("C06", "D1 reverted: announcer reboot handling deferred", "sd.py", "        self.announcer.reboot_detected(addr)\n", "        asyncio.get_event_loop().call_soon(self.announcer.reboot_detected, addr)\n")
 m("C06", "rejected subscription recorded anyway", "sd.py", "        except NakSubscription:\n            self.announcer._send_subscribe_nack(subscription, addr)", "        except NakSubscription:\n            self.subscriptions.store[addr][subscription] = (self.listener.client_unsubscribed, None)\n            self.announcer._send_subscribe_nack(subscription, addr)")
